@@ -1125,9 +1125,12 @@ def rule_reset(rep: Report, rid="C15.reset", classes=(MQ, "gherkin.token_matcher
                     if isinstance(n, ast.Subscript) and isinstance(n.ctx, (ast.Store, ast.Del)) and isinstance(n.value, ast.Attribute) \
                             and isinstance(n.value.value, ast.Name) and n.value.value.id == "self":
                         written.setdefault(n.value.attr, set()).add(fi.qualname)
+        # ``self.__dict__.pop('<cached property>', None)`` / ``del self.__dict__['...']`` drops a memoised value: whether that is
+        # done wherever it must be is the memo rule's question, and the instance dictionary is not an attribute of its own
+        written.pop("__dict__", None)
         for a in list(written):
             pm = cls.find_method(a)
-            if pm is not None and pm.is_property:
+            if pm is not None and (pm.is_property or "cached_property" in pm.decorators):
                 del written[a]      # a property (e.g. current_node): the object mutated lives in another attribute
         # state kept in an object of a repository class the matcher holds: a method of that object that writes the object's own
         # attributes, called while matching, writes per-document state all the same
